@@ -48,7 +48,7 @@ func (z zvS) Apply(c vrt.ConcCall) (r vrt.ConcRes) {
 }
 
 func (z zvS) Observe(_ []int) []int {
-	var out []int
+	out := []int{z.s.Size()}
 	for i := 0; i < 8 && z.s.Size() > 0; i++ {
 		out = append(out, z.s.Pop())
 	}
